@@ -20,10 +20,10 @@ Fixpoint Dmaxrel (floor : D) (m v : list D) : D :=
 Definition Dppb (x : D) : Z := let q := D2Q (Dmul x (DofZ 1000000000)) in (Qnum q / Zpos (Qden q))%Z.
 
 (** ** density correspondence: PhiManip.phi_1D against Model.Equilibrium.phi_1D with the Gauss-Legendre oracle *)
-Record dens_case := { dn_xs : list (Z * Z); dn_nu : Q; dn_theta0 : Q; dn_gamma : Q; dn_h : Q; dn_beta : Q;
+Record dens_case := { dn_ovf : Q; dn_xs : list (Z * Z); dn_nu : Q; dn_theta0 : Q; dn_gamma : Q; dn_h : Q; dn_beta : Q;
                       dn_impl : list (Z * Z) }.
 Definition dens_model (K sub : nat) (c : dens_case) : list D :=
-  @phi_1D D NumDF (@quad_geom D NumDF K sub) (z2D (dn_xs c)) (Q2D (dn_nu c)) (Q2D (dn_theta0 c)) (Q2D (dn_gamma c)) (Q2D (dn_h c)) (Q2D (dn_beta c)).
+  @phi_1D D NumDF (Q2D (dn_ovf c)) (@quad_geom D NumDF K sub) (z2D (dn_xs c)) (Q2D (dn_nu c)) (Q2D (dn_theta0 c)) (Q2D (dn_gamma c)) (Q2D (dn_h c)) (Q2D (dn_beta c)).
 Definition dens_check (K sub : nat) (tol : Q) (c : dens_case) : bool * Z :=
   let m := dens_model K sub c in
   let e := Dmaxrel Dtiny m (z2D (dn_impl c)) in
